@@ -3,7 +3,7 @@
 
       Input s        mpc.input(x, senders=s)   (_distribute: the sender deals, to peers 0..m-1 in order)
       Add i j        local
-      Mul pc i j     mpc.mul: local product, then _reshare labelled pc: the 2t+1 dealers
+      Mul pc i j     mpc.mul: local product, then (if t > 0) _reshare labelled pc: the 2t+1 dealers
                      dealers m t (pc mod m) each deal their product share to all peers (0..m-1 in order);
                      every party recombines the 2t+1 sub-shares (its own included if it is a dealer)
       Output i rcv   mpc.output(x, receivers=rcv): a party sends its share to the receivers among its t
@@ -14,6 +14,13 @@
     an operation is executed by a party as soon as the shares it needs are available at that party.
     A message is (src, dst, label, payload); the label is the index of the operation in the program
     (standing for its unique program counter, C08/C09).
+
+    The ORDER in which one party emits the messages of different operations is decided by asyncio's
+    callback scheduling in the implementation (e.g. the operands of x*x are gathered one loop iteration
+    earlier than those of x*y), not by program order; the crashed system therefore takes the crashing
+    party's send order as a parameter ([prefix_keep order k]: the first k messages of [order]), all theorems
+    hold for every order (indeed for every subset of its messages), and the correspondence run feeds the
+    order observed in the implementation's crash-free frame log.
 
     A party's knowledge is the list D of messages delivered to it.  To make the model monotone for
     ARBITRARY lists D (as Crash.v's hypotheses demand), the share of an operation at a party is the
@@ -26,7 +33,7 @@
                                    messages is a sub-behaviour
       crash_exec_safe              instance of Crash.crash_safe: any output completed under any schedule
                                    of the crashed system is completed identically in the crash-free run
-      cf_closed, cf_functional     the crash-free closure (fuel = number of operations + 1) is a closed,
+      cf_closed, cf_functional     the crash-free closure (fuel = number of operations) is a closed,
                                    functional run; results there are single valued
       crash_exec_no_wrong_value    a survivor never outputs a value different from the crash-free one
       run_closed                   executable: outputs completed by survivors when party c stops after
@@ -166,6 +173,7 @@ Definition opval (D : list msg) (pid k : nat) (o : op) (env : list (list Z)) : l
   | Input s => if pid =? s then [deal (tape k s) (inp k) pid] else recv D s pid k
   | Add i j => lift2 fadd (nth i env []) (nth j env [])
   | Mul pc i j =>
+      if t =? 0 then lift2 fmul (nth i env []) (nth j env []) else      (* _reshare: "if t == 0: return x" *)
       let ds := dealers m t (uci pc) in
       let oth := filter (fun d => negb (d =? pid)) ds in
       flat_map (fun z =>
@@ -182,7 +190,7 @@ Definition opsend (pid k : nat) (o : op) (env : list (list Z)) : list msg :=
   | Input s => if pid =? s then map (fun d => (pid, d, k, deal (tape k s) (inp k) d)) (others pid) else []
   | Add _ _ => []
   | Mul pc i j =>
-      if memb pid (dealers m t (uci pc)) then
+      if negb (t =? 0) && memb pid (dealers m t (uci pc)) then
         flat_map (fun z => map (fun d => (pid, d, k, deal (tape k pid) z d)) (others pid))
                  (lift2 fmul (nth i env []) (nth j env []))
       else []
@@ -235,7 +243,8 @@ Proof.
   intros HD He. destruct o as [s|i j|pc i j|i rcv]; simpl.
   - destruct (pid =? s); [apply incl_refl|apply recv_mono, HD].
   - apply lift2_mono; apply nth_env_mono; exact He.
-  - apply incl_flat_map2.
+  - destruct (t =? 0); [apply lift2_mono; apply nth_env_mono; exact He|].
+    apply incl_flat_map2.
     + apply lift2_mono; apply nth_env_mono; exact He.
     + intros z. apply incl_map. apply combos_mono. apply Forall2_map_same. intros d. apply recv_mono, HD.
   - apply incl_refl.
@@ -244,7 +253,7 @@ Qed.
 Lemma opsend_mono pid k o e e' : env_le e e' -> incl (opsend pid k o e) (opsend pid k o e').
 Proof.
   intros He. destruct o as [s|i j|pc i j|i rcv]; simpl; try apply incl_refl.
-  - destruct (memb pid (dealers m t (uci pc))); [|apply incl_refl].
+  - destruct (negb (t =? 0) && memb pid (dealers m t (uci pc))); [|apply incl_refl].
     apply incl_flat_map2; [|intros z; apply incl_refl]. apply lift2_mono; apply nth_env_mono; exact He.
   - apply incl_flat_map2; [|intros z; apply incl_refl]. apply nth_env_mono; exact He.
 Qed.
@@ -398,7 +407,8 @@ Lemma opval_restrict D n pid k o e : k < n -> opval (restrict n D) pid k o e = o
 Proof.
   intros H. destruct o as [s|i j|pc i j|i rcv]; simpl; try reflexivity.
   - rewrite recv_restrict by exact H. reflexivity.
-  - apply flat_map_ext. intros z. f_equal. f_equal. apply map_ext. intros d. apply recv_restrict, H.
+  - destruct (t =? 0); [reflexivity|].
+    apply flat_map_ext. intros z. f_equal. f_equal. apply map_ext. intros d. apply recv_restrict, H.
 Qed.
 
 Lemma opsend_lab pid k o e x : In x (opsend pid k o e) -> mlab x = k /\ msrc x = pid.
@@ -406,7 +416,7 @@ Proof.
   destruct o as [s|i j|pc i j|i rcv]; simpl.
   - destruct (pid =? s); [|intros []]. intros H. apply in_map_iff in H. destruct H as [d [<- _]]. split; reflexivity.
   - intros [].
-  - destruct (memb pid _); [|intros []]. intros H. apply in_flat_map in H. destruct H as [z [_ H]].
+  - destruct (negb (t =? 0) && memb pid _); [|intros []]. intros H. apply in_flat_map in H. destruct H as [z [_ H]].
     apply in_map_iff in H. destruct H as [d [<- _]]. split; reflexivity.
   - intros H. apply in_flat_map in H. destruct H as [z [_ H]].
     apply in_map_iff in H. destruct H as [d [<- _]]. split; reflexivity.
@@ -597,7 +607,8 @@ Proof.
   intros HF He. destruct o as [s|i j|pc i j|i rcv]; simpl.
   - destruct (pid =? s); [apply single_one|apply recv_single, HF].
   - apply single_lift2; apply single_nth; exact He.
-  - apply single_flat_map_map.
+  - destruct (t =? 0); [apply single_lift2; apply single_nth; exact He|].
+    apply single_flat_map_map.
     + apply single_lift2; apply single_nth; exact He.
     + intros z. apply single_combos. apply Forall_forall. intros l Hl. apply in_map_iff in Hl.
       destruct Hl as [d [<- _]]. apply recv_single, HF.
@@ -612,7 +623,7 @@ Proof.
   - destruct (pid =? s); [|intros []]. intros Hx Hy. apply in_map_iff in Hx. apply in_map_iff in Hy.
     destruct Hx as [d [<- _]]. destruct Hy as [d' [<- _]]. unfold mdst. simpl. intros ->. reflexivity.
   - intros [].
-  - destruct (memb pid _); [|intros []]. intros Hx Hy.
+  - destruct (negb (t =? 0) && memb pid _); [|intros []]. intros Hx Hy.
     apply in_flat_map in Hx. apply in_flat_map in Hy.
     destruct Hx as [z [Hz Hx]]. destruct Hy as [z' [Hz' Hy]].
     apply in_map_iff in Hx. apply in_map_iff in Hy.
